@@ -46,9 +46,17 @@ type VerifEvent struct {
 	TokIn     int
 	NOffset   int
 	TokOut    int
-	Size      int  // D: bytes handed to the destination
-	Tokens    int  // D: len(tokens) at the time of the write (>0 inside encodeBlock)
-	OK        bool // D: the destination accepted the write
+	Size      int        // D: bytes handed to the destination
+	Tokens    int        // D: len(tokens) at the time of the write (>0 inside encodeBlock)
+	OK        bool       // D: the destination accepted the write
+	New       []VerifTok // G: the tokens this call appended, decoded with token.ExtractLz77
+}
+
+// VerifTok is one decoded LZ77 token: a literal (A, and a second literal B unless B == 256) or a match of
+// length A at distance B.
+type VerifTok struct {
+	Lit  bool
+	A, B uint32
 }
 
 type verifRecLZ77 struct {
@@ -58,7 +66,12 @@ type verifRecLZ77 struct {
 
 func (r *verifRecLZ77) generate(flush bool, input []byte, processed int, offset int, tokens []token, maxToken int) (int, []token) {
 	n, t := r.inner.generate(flush, input, processed, offset, tokens, maxToken)
-	*r.log = append(*r.log, VerifEvent{Kind: "G", Flush: flush, End: len(input), Processed: processed, Offset: offset, TokIn: len(tokens), NOffset: n, TokOut: len(t)})
+	ev := VerifEvent{Kind: "G", Flush: flush, End: len(input), Processed: processed, Offset: offset, TokIn: len(tokens), NOffset: n, TokOut: len(t)}
+	for i := len(tokens); i < len(t); i++ {
+		a, b, lit := t[i].ExtractLz77()
+		ev.New = append(ev.New, VerifTok{Lit: lit, A: a, B: b})
+	}
+	*r.log = append(*r.log, ev)
 	return n, t
 }
 
